@@ -870,6 +870,23 @@ def exec_large(p):
     return res
 
 
+def gen_small_scale(r, quick):
+    """features recorded in small units (1e-6, bandwidth to match) and in large ones (1e4): thresholds like `eps` are absolute, so a
+    mask applied to the wrong power of the distance swallows every pair at small scales"""
+    cases = []
+    for t in range(15 if quick else 90):
+        kind = KINDS[t % len(KINDS)]
+        k = gen_kernel(r, kind, [1.0, 1.3, 0.7, 2.0, 1.7][(t // len(KINDS)) % 5])
+        if kind == 'lpq':
+            k['q'] = min(k['q'], k['p'])
+        s = [1e-6, 1e-6, 1e4][(t // len(KINDS)) % 3]
+        k['L'] = k['L'] * s
+        cases.append({'family': 'kernel-grads-small-scale', 'kernel': k, 'd': r.randint(1, 4), 'nx': r.randint(2, 10), 'nz': r.randint(1, 5),
+                      'f': r.choice([1, 2, 3]), 'mode': 'general', 'tm': r.choice(['none', 'diag', 'full']), 'scale': s, 'ncoord': 1,
+                      'zero_diag': False, 'seed': r.randint(0, 2 ** 31 - 1)})
+    return cases
+
+
 def gen_large(r, quick):
     cases = []
     for t, kind in enumerate(KINDS if quick else list(KINDS) * 2):
@@ -913,7 +930,7 @@ def check(run):
     run.lean()
     quick = run.tier == 'quick'
     r = run.rng
-    cases = gen_blocks(r, 500 if quick else 5000) + gen_rfm(r, 30 if quick else 150) + gen_xrfm(r, 8 if quick else 40) + gen_large(r, quick)
+    cases = gen_blocks(r, 500 if quick else 5000) + gen_rfm(r, 30 if quick else 150) + gen_xrfm(r, 8 if quick else 40) + gen_large(r, quick) + gen_small_scale(r, quick)
     if run.driver_ok:
         # fitted models first (slowest), blocks spread evenly
         cases.sort(key=lambda p: 0 if p['family'].startswith('xrfm') or p['family'] == 'kernel-grads-large' else 1 if p['family'] == 'rfm-grads' else 2)
